@@ -204,14 +204,19 @@ class World:
             self.shells.append(Entry(sh, meta={"cls": "base"}))
         return self.shells[0].obj
 
-    def basis(self, d, reuse=True, max_nbf=40, max_l=9, mk_members=None):
+    def basis(self, d, reuse=True, max_nbf=40, max_l=9, mk_members=None, max_work=None):
+        def work(b):  # Cartesian functions x primitives: what the two-electron kernel's cost grows with
+            return sum(((s.angmom + 1) * (s.angmom + 2)) // 2 * s.coeffs.shape[1] * s.exps.shape[0] for s in b)
+
         def cost_ok(e):
             b = e.obj
-            return len(b) > 0 and self.nbf_cart(b) <= max_nbf and max(s.angmom for s in b) <= max_l
+            return (len(b) > 0 and self.nbf_cart(b) <= max_nbf and max(s.angmom for s in b) <= max_l
+                    and (max_work is None or work(b) <= max_work))
 
         def mk():
             self.default_shell()
-            ok = [e.obj for e in self.shells if e.obj.angmom <= max_l and self.nbf_cart([e.obj]) <= max_nbf]
+            ok = [e.obj for e in self.shells if e.obj.angmom <= max_l and self.nbf_cart([e.obj]) <= max_nbf
+                  and (max_work is None or work([e.obj]) <= max_work)]
             if not ok:
                 sh = self.classes["base"](0, np.zeros(3), np.array([1.0]), np.array([0.8]), "spherical")
                 self.shells.append(Entry(sh, meta={"cls": "base"}))
@@ -996,14 +1001,16 @@ def r_query(w, op):
 
     is_eri = fn_name == "electron_repulsion_integral" or (
         fn_name.startswith("cls_") and P["cls"] == "ElectronRepulsionIntegral")
+    max_work = None
     if is_eri:
-        caps = (9, 1, 2)
+        caps = (14, 2, 2)
+        max_work = 14
     else:
         caps = COST_CAPS.get(fn_name, (40, 4, 8))
     if op.get("big") and fn_name in BIG_OK:
         caps = BIG_OK[fn_name]
     max_pts = caps[2]
-    basis = w.basis(d[0], True, max_nbf=caps[0], max_l=caps[1])
+    basis = w.basis(d[0], True, max_nbf=caps[0], max_l=caps[1], max_work=max_work)
     nbf = w.nbf(basis)
     if len(set(map(id, basis))) < len(basis):
         w.probe("query_on_container_with_repeated_shell")
